@@ -463,3 +463,97 @@ func devSummary(m map[string]*c17seen) string {
 	}
 	return strings.Join(parts, "; ")
 }
+
+// ---------------------------------------------------------------------------
+// c17lo: targets attached to the loopback interface (127.0.0.0/8, or a service network configured on lo)
+// next to an Ethernet interface that carries the default route. lo is an interface like any other: it is
+// attached to the target, has no hardware address (raw-IP framing), and its address on that network is
+// the source. Nothing may leave through the default-route interface.
+
+func init() { scenarios["c17lo"] = scenC17Lo }
+
+func scenC17Lo(run *vlab.Run, sx, tmp string) {
+	rng := run.Rand("c17lo")
+	emptyCache := writeFile(tmp, "arp.cache", "")
+	n := run.Pick(16, 96)
+	for i := 0; i < n; i++ {
+		if !run.Mine(i) {
+			continue
+		}
+		svc := fmt.Sprintf("10.55.%d.1/24", rng.Intn(200))
+		svcOn := i%2 == 1
+		target, wantSrc := fmt.Sprintf("127.%d.%d.%d/29", rng.Intn(3), rng.Intn(256), 8*rng.Intn(32)), "127.0.0.1"
+		if svcOn && i%4 == 1 {
+			a, c := cidrOf(svc)
+			target, wantSrc = fmt.Sprintf("%s/29", ipS(c.Base+uint32(8*(1+rng.Intn(30))))), ipS(a)
+		}
+		cmd := []string{"icmp", "tcp"}[i/4%2]
+		withIface := i%8 >= 6
+		withRoute := i%3 != 0
+		args := []string{cmd, "--json", "--exit-delay", "20ms", "--gwmac", gwMAC, "-a", emptyCache}
+		if cmd == "tcp" {
+			args = append(args, "-p", "80")
+		}
+		if withIface {
+			args = append(args, "-i", "lo")
+		}
+		args = append(args, target)
+		run.Case(fmt.Sprintf("c17lo%03d", i), map[string]interface{}{"argv": args, "service_net_on_lo": svcOn, "default_route_via_t0": withRoute})
+		res := RunCase(sx, &CaseSpec{Args: args, Timeout: 60 * time.Second, Sniff: []string{"lo"}, Setup: func(w *World) {
+			mustSh("ip", "link", "set", "dev", "lo", "up")
+			if svcOn {
+				mustSh("ip", "addr", "add", svc, "dev", "lo")
+			}
+			w.AddTap("t0", "02:00:00:00:01:01", "10.20.0.5/24")
+			if withRoute {
+				mustSh("ip", "route", "add", "default", "via", "10.20.0.254", "dev", "t0", "metric", "10")
+			}
+		}})
+		run.Eval(1)
+		desc := map[string]interface{}{"argv": strings.Join(args, " "), "service_net_on_lo": svcOn, "default_route_via_t0": withRoute}
+		if !baseChecks(run, res, desc, false) {
+			continue
+		}
+		onTap, onLo := 0, 0
+		srcs := map[string]int{}
+		framed := 0
+		for _, e := range res.Events {
+			switch {
+			case e.Kind == "tx" && e.Dev == "t0":
+				if _, _, _, ok := decodeProbe(cmd, e.Data, oracle.LinkEthernet); ok {
+					onTap++
+				}
+			case e.Kind == "sniff" && e.Dev == "lo":
+				if d, _, _, ok := decodeProbe(cmd, e.Data, oracle.LinkRawIP); ok && d.IP != nil {
+					onLo++
+					srcs[oracle.IPString(d.IP.Src)]++
+				} else if d, _, _, ok := decodeProbe(cmd, e.Data, oracle.LinkEthernet); ok && d.IP != nil {
+					onLo++
+					framed++
+					srcs[oracle.IPString(d.IP.Src)]++
+				}
+			}
+		}
+		key := "auto"
+		if withIface {
+			key = "iface-flag"
+		}
+		switch {
+		case onTap > 0:
+			run.Violation("lo:wrong-interface:"+key, fmt.Sprintf("the target %s is attached to lo, yet %d probes left through t0 (the default-route interface), %d through lo: %s", target, onTap, onLo, strings.Join(args, " ")), desc)
+		case onLo == 0:
+			run.Violation("lo:no-probe:"+key, fmt.Sprintf("the target %s is attached to lo but no probe was seen on lo (exit %d, stderr %s): %s", target, res.ExitCode, tailStr(strings.TrimSpace(res.Stderr), 300), strings.Join(args, " ")), desc)
+		default:
+			if len(srcs) != 1 || srcs[wantSrc] == 0 {
+				run.Violation("lo:wrong-source-ip:"+key, fmt.Sprintf("probes on lo carry source %v; lo's address on the target's network is %s: %s", srcs, wantSrc, strings.Join(args, " ")), desc)
+			}
+			if framed > 0 {
+				run.Violation("lo:framing", fmt.Sprintf("lo has no hardware address but %d probes carry an Ethernet header: %s", framed, strings.Join(args, " ")), desc)
+			}
+			run.Count("lo_runs_ok", 1)
+		}
+		run.Count("lo_runs", 1)
+		run.Count("lo_probes_seen", int64(onLo))
+		run.Distinct(strings.Join(args, " ") + fmt.Sprint(svcOn, withRoute))
+	}
+}
